@@ -18,6 +18,31 @@ def kabsch(P, X):
     return float(dev.max()), float(np.sqrt((dev ** 2).mean())), Rm, xc - Rm @ pc
 
 
+def subset_rmsd_bound(P, X, n_extreme=6, n_worst=2):
+    """lower bound on the smallest max-deviation any proper rigid motion of P onto X can reach: for every
+    subset S the Kabsch rmsd of (P[S], X[S]) is <= the rmsd of any motion on S <= its max deviation on S
+    <= its max deviation on all atoms.  Subsets: the worst-fitting atoms of the full fit, each with every
+    triple of a farthest-point sample of the pattern.  (A candidate that fits in the mean but has one atom
+    far off - the mirror image of a many-atom chiral pattern - has a small full rmsd and a large subset one.)"""
+    P = np.asarray(P, float); X = np.asarray(X, float); k = len(P)
+    full = kabsch(P, X)
+    best = full[1]
+    if k <= 4:
+        return best
+    _, _, Rm, t = full
+    dev = np.linalg.norm((Rm @ P.T).T + t - X, axis=1)
+    worst = [int(i) for i in np.argsort(-dev)[:n_worst]]
+    ext = [int(np.argmax(np.linalg.norm(P - P.mean(0), axis=1)))]
+    while len(ext) < min(n_extreme, k):
+        d = np.min(np.linalg.norm(P[:, None] - P[ext][None], axis=2), axis=1)
+        ext.append(int(np.argmax(d)))
+    for w in worst:
+        for tri in itertools.combinations([e for e in ext if e != w], 3):
+            S = [w] + list(tri)
+            best = max(best, kabsch(P[S], X[S])[1])
+    return best
+
+
 def resolve_hints(p, a1=None, a2=None, op=None):
     """effective (axis point 1, axis point 2, orientation point) by the documented rule: missing
     axis points default to the farthest pair / the point farthest from the given one; the
@@ -147,8 +172,9 @@ def image_offsets(cell, r=2):
 
 def ref_match(spos, sel, cell, ppos, pel, atol, c, images=2):
     """brute-force periodic matcher.  Returns {group (sorted unit-cell index tuple): (class, eps, rmsd)}
-    with class IN (some ordering has c*eps <= 0.8 atol), OUT (every ordering has rmsd > 1.8 atol + 1e-3
-    or a pairwise discrepancy > 3.7 atol; orderings pruned at 4 atol are OUT by construction), else GRAY."""
+    with class IN (some ordering has c*eps <= 0.8 atol), OUT (every ordering has rmsd > 1.8 atol + 1e-3 - over all
+    atoms or over a 4-atom subset, see subset_rmsd_bound - or a pairwise discrepancy > 3.7 atol; orderings pruned
+    at 4 atol are OUT by construction), else GRAY."""
     spos = np.asarray(spos, float); ppos = np.asarray(ppos, float)
     n = len(spos); k = len(ppos)
     mult, offs = image_offsets(cell, images)
@@ -171,7 +197,7 @@ def ref_match(spos, sel, cell, ppos, pel, atol, c, images=2):
             disc = np.abs(np.linalg.norm(X[:, None] - X[None], axis=2) - pd).max() if k > 1 else 0.0
             if c * eps <= 0.8 * atol:
                 cls = 'IN'
-            elif rmsd > 1.8 * atol + 1e-3 or disc > 3.7 * atol:
+            elif rmsd > 1.8 * atol + 1e-3 or disc > 3.7 * atol or (k > 4 and subset_rmsd_bound(ppos, X) > 1.8 * atol + 1e-3):
                 cls = 'OUT'
             else:
                 cls = 'GRAY'
